@@ -70,7 +70,7 @@ def ev_form(toks, v):
         return False
     if t == 't':
         return True
-    if t[0] == 'v':
+    if t[0] in 'vc':
         return v[int(t[1:])]
     if t == 'n':
         return not ev_form(toks, v)
@@ -126,7 +126,7 @@ def cf_shape(toks):
 
 
 def form_vars(f):
-    return sorted({int(t[1:]) for t in f.split() if t[0] == 'v' and t[1:].isdigit()})
+    return sorted({int(t[1:]) for t in f.split() if t[0] in 'vc' and t[1:].isdigit()})
 
 
 def assignments(vs):
@@ -368,27 +368,27 @@ def gen_cases(tier, seed):
             cases.append(('P ' + f, f'exh{n}'))
     # a seeded sample of the next size
     nxt = forms_of_size(bound + 1, memo, ATOMS3)
-    k = 600 if tier == 'quick' else 12000
+    k = 300 if tier == 'quick' else 12000
     for f in rng.sample(nxt, min(k, len(nxt))):
         cases.append(('P ' + f, f'smp{bound + 1}'))
-    nrand = 700 if tier == 'quick' else 14000
+    nrand = 450 if tier == 'quick' else 14000
     for _ in range(nrand):
         nv = rng.choice([2, 3, 3, 4, 4])
         d = rng.choice([2, 3, 3, 4])
         cases.append(('P ' + rand_form(rng, d, nv, 1 if d >= 3 else 2), 'rand'))
-    nst = 250 if tier == 'quick' else 4000
+    nst = 150 if tier == 'quick' else 4000
     for _ in range(nst):
         cases.append(('N ' + rand_cf(rng, rng.randrange(1, 5), rng.choice(['or', 'or', 'or', 'any'])), 'stageN'))
         cases.append(('C ' + rand_cf(rng, rng.randrange(1, 4), rng.choice(['nnf', 'nnf', 'nnf', 'any'])), 'stageC'))
         cases.append(('L ' + rand_cf(rng, rng.randrange(1, 5), rng.choice(['cnf', 'cnf', 'cnf', 'nnf', 'any'])), 'stageL'))
-    nres = 900 if tier == 'quick' else 20000
+    nres = 600 if tier == 'quick' else 20000
     for _ in range(nres):
         nv = rng.choice([2, 3, 3, 4])
         if rng.random() < 0.5:
             cases.append(('R ' + rand_clauses(rng, nv), 'res'))
         else:
             cases.append(('R ' + unsat_biased_clauses(rng, nv), 'resU'))
-    nv_ = 300 if tier == 'quick' else 4000
+    nv_ = 200 if tier == 'quick' else 4000
     for _ in range(nv_):
         def cl():
             return '{' + ','.join(str(rng.choice([1, -1]) * rng.randrange(1, 5)) for _ in range(rng.randrange(0, 4))) + '}'
@@ -416,6 +416,10 @@ def proof_cases(tier, seed):
         out += s3 + rng.sample(s4, 150)
         out += [rand_form(rng, 3, 3, 1) for _ in range(150)]
     out.append(D6_WITNESS)
+    # D16: metavariables carrying constraints (the stages identify a metavariable by its id only)
+    out += ['c0', 'i c0 c0', 'i c0 t', 'i b c0', 'o c0 n c0', 'a c0 n c0', 'i a c0 v1 c0', 'e c0 c0']
+    for _ in range(4 if tier == 'quick' else 40):
+        out.append(rand_form(rng, 2, 3, 1).replace('v0', 'c0'))
     return out
 
 
@@ -523,9 +527,11 @@ def run(tier, seed):
         if a is None or a.startswith('TIMEOUT') or a.startswith('<missing>'):
             R.hist['proof_timeouts'] = R.hist.get('proof_timeouts', 0) + 1
             continue
-        R.case('Q ' + f, True, 'proofs')
+        constrained = any(t[0] == 'c' for t in f.split())
+        R.case('Q ' + f, True, 'proofs_constrained' if constrained else 'proofs')
         if a.startswith('ERR'):
-            R.violation('proof-layer/raises', f'proof construction raised {a} (input {f})', {'input': 'Q ' + f, 'got': a})
+            sig = 'proof-layer/constrained-metavar/raises:' + a.split()[-1] if constrained else 'proof-layer/raises'
+            R.violation(sig, f'proof construction raised {a} (input {f})', {'input': 'Q ' + f, 'got': a})
             continue
         parts = a.split(' ')
         n_pf += int(parts[1].split('=')[1])
@@ -534,7 +540,8 @@ def run(tier, seed):
                         {'input': 'Q ' + f, 'got': a})
         if parts[2] != 'OK':
             names = sorted({x.split(':')[0].rstrip('12') + ':' + x.split(':')[1] for x in parts[3].split(',')})
-            R.violation('proof-layer/' + '+'.join(names), f'returned proof has the wrong conclusion or fails to run: {a} (input {f})',
+            sig = 'proof-layer/constrained-metavar/stage-conclusions' if constrained else 'proof-layer/' + '+'.join(names)
+            R.violation(sig, f'returned proof has the wrong conclusion or fails to run: {a} (input {f})',
                         {'input': 'Q ' + f, 'got': a})
     R.hist['proofs_executed'] = n_pf
     R.hist['oracle_cases'] = n_oracle
